@@ -141,6 +141,15 @@ def emit(prop, tier, seed, results, project, t0, explanation, not_decided,
                 knowns.append((f, k))
             else:
                 violations.append(f)
+    undecided = [(r.rule, r.undecided) for r in results
+                 if getattr(r, 'undecided', None)]
+    if undecided and not violations:
+        from .model import AnalysisError
+        raise AnalysisError('; '.join(u[1] for u in undecided))
+    for rule, why in undecided:
+        print('NOTE rule %s undecided: %s' % (rule, why))
+    floors_bad = [fb for fb, r in ((fb, fb.split(':')[0]) for fb in floors_bad)
+                  if r not in {u[0] for u in undecided}]
     if floors_bad and not violations:
         from .model import AnalysisError
         raise AnalysisError('instance floor not met: ' + '; '.join(floors_bad))
